@@ -218,7 +218,8 @@ def c12_9(ctx: Ctx):
     raw = [g for g, c in le.all_calls() if src(c) == "self._append_data(data, state.loc)"]
     # the ASCII arm may first try to extend the previous string block (one more condition); the raw arm has none
     ok = len(asc) == 1 and len(raw) == 1 and le.under(asc[0], "not self._prevent_print_as_string_count") and le.under(raw[0], "self._prevent_print_as_string_count") \
-        and len([a for a in f_atoms(asc[0].guard)]) <= 2 and len([a for a in f_atoms(raw[0].guard)]) == 1
+        and {a[0] for a in f_atoms(asc[0].guard)} <= {"self._prevent_print_as_string_count", "self._try_terminate_previous_ascii_block(state, data)", "data"} \
+        and {a[0] for a in f_atoms(raw[0].guard)} <= {"self._prevent_print_as_string_count", "data"}   # `data`: nothing is emitted for an empty byte string (fix F98)
     ctx.check(ok, eb, eb.node, "string bytes get an ASCII-typed block, integer bytes are plain data", "emit_bytes dispatch changed")
 
 
